@@ -23,10 +23,13 @@ echo "== demo on patched tree"
 sh "$d/demo/run.sh" "$wt" > "$d/demo-patched.log" 2>&1; r1=$?
 echo "   exit $r1 (want non-zero)"
 echo "== ./check $prop against patched tree"
-cd /verif && NV_REPO="$wt" ./check "$prop" --tier quick > "$d/check-patched.log" 2>&1; rc=$?
+cd /verif && NV_EVIDENCE_DIR="$wt/_evidence" NV_REPO="$wt" ./check "$prop" --tier quick > "$d/check-patched.log" 2>&1; rc=$?
 grep -E "^VIOLATION|^KNOWN|^BUILD" "$d/check-patched.log" | head -5
 echo "   check exit $rc (want 1)"
 # drop the build tree of the scratch repo
 key=$(python3 -c "import hashlib,os;print(hashlib.sha1(os.path.realpath('$wt').encode()).hexdigest()[:10])")
 rm -rf /verif/.work/build-*-$key /verif/.work/harness-$key
+# the run above regenerated lean/NV/Gen/<prop>.lean from the patched tree: regenerate it from /repo again
+cd /verif && NV_EVIDENCE_DIR="$wt/_evidence2" ./check "$prop" --tier quick > /dev/null 2>&1
+rm -f /verif/replays/$prop-*.json.tmp
 echo "RESULT demo_unpatched=$r0 demo_patched=$r1 check=$rc"
